@@ -17,10 +17,10 @@ Proof.
 Qed.
 
 Lemma starts_key o k : starts o k = true ->
-  enabled (k_tr k) = true /\ (o = Track k \/ o = TrackNX k \/ o = Validate k).
+  enabled (k_tr k) = true /\ (o = Track k \/ o = TrackNX k \/ o = Validate k \/ o = ValidateStale k).
 Proof.
   destruct o; cbn; try discriminate; intros H; apply andb_true_iff in H as [H1 H2];
-    apply regkey_eqb_eq in H1; subst; auto.
+    apply regkey_eqb_eq in H1; subst; auto 6.
 Qed.
 
 Lemma elapsed_rev l : elapsed (rev l) = elapsed l.
@@ -37,7 +37,7 @@ Proof.
   - change (elapsed (o :: l1)) with (elapsed ([o] ++ l1)) in H. rewrite elapsed_app in H.
     cbn [app]. destruct o; cbn [starts_within_rev];
       try (apply IH; change (elapsed [_]) with 0 in H; rewrite N.add_0_l in H; exact H).
-    1-3: destruct (enabled (k_tr k) && (el <=? lim)); [right|];
+    1-4: destruct (enabled (k_tr k) && (el <=? lim)); [right|];
          apply IH; change (elapsed [_]) with 0 in H; rewrite N.add_0_l in H; exact H.
     apply IH. change (elapsed [Advance ns]) with (ns + 0) in H. rewrite N.add_0_r, N.add_assoc in H. exact H.
 Qed.
@@ -47,7 +47,7 @@ Lemma in_starts_within lim h1 o h2 k :
 Proof.
   intros S B. unfold starts_within. rewrite rev_app_distr. cbn [rev]. rewrite <- app_assoc. cbn [app].
   apply in_starts_within_rev. rewrite N.add_0_l, elapsed_rev.
-  destruct (starts_key o k S) as [En [->|[->| ->]]]; cbn [starts_within_rev];
+  destruct (starts_key o k S) as [En [->|[->|[->| ->]]]]; cbn [starts_within_rev];
     rewrite En; assert (E : (elapsed h2 <=? lim) = true) by lia; rewrite E; left; reflexivity.
 Qed.
 
@@ -71,7 +71,7 @@ Qed.
 (* at any time: at most one tracked registration per registering operation *)
 Definition start_keys (h : list rop) : list tkey :=
   flat_map (fun o => match o with
-                     | Track k | TrackNX k | Validate k => if enabled (k_tr k) then [tkey_of k] else []
+                     | Track k | TrackNX k | Validate k | ValidateStale k => if enabled (k_tr k) then [tkey_of k] else []
                      | _ => [] end) h.
 
 Lemma length_start_keys h : (length (start_keys h) <= length (filter is_start h))%nat.
@@ -83,7 +83,7 @@ Qed.
 Lemma in_start_keys h1 o h2 k : starts o k = true -> In (tkey_of k) (start_keys (h1 ++ o :: h2)).
 Proof.
   intros S. unfold start_keys. apply in_flat_map. exists o. split; [apply in_or_app; right; left; reflexivity|].
-  destruct (starts_key o k S) as [En [->|[->| ->]]]; rewrite En; left; reflexivity.
+  destruct (starts_key o k S) as [En [->|[->|[->| ->]]]]; rewrite En; left; reflexivity.
 Qed.
 
 Lemma bounded h : (ntracked (run h) <= length (filter is_start h))%nat.
@@ -109,16 +109,16 @@ Proof.
   { intros el' H' ->. destruct (IH _ H') as (r1 & o' & r2 & -> & S & B).
     exists (o :: r1), o', r2. split; [reflexivity|]. split; [exact S|].
     change (o :: r1) with ([o] ++ r1). rewrite elapsed_app. lia. }
-  assert (HERE : forall k, (o = Track k \/ o = TrackNX k \/ o = Validate k) -> enabled (k_tr k) = true -> el <= lim ->
+  assert (HERE : forall k, (o = Track k \/ o = TrackNX k \/ o = Validate k \/ o = ValidateStale k) -> enabled (k_tr k) = true -> el <= lim ->
                  key = tkey_of k ->
                  exists r1 o' r2, o :: rh = r1 ++ o' :: r2 /\ starts o' (key_regkey key) = true /\ el + elapsed r1 <= lim).
   { intros k Ho En B ->. exists [], o, rh. split; [reflexivity|]. split; [|cbn; lia].
     assert (key_regkey (tkey_of k) = k) as -> by (destruct k; reflexivity).
-    destruct Ho as [->|[->| ->]]; cbn; rewrite regkey_eqb_refl, En; reflexivity. }
+    destruct Ho as [->|[->|[->| ->]]]; cbn; rewrite regkey_eqb_refl, En; reflexivity. }
   destruct o; cbn [starts_within_rev] in H;
     try (apply (SKIP el H); change (elapsed [_]) with 0; lia).
-  1-3: destruct (enabled (k_tr k)) eqn:En; cbn [andb] in H;
-       [destruct (el <=? lim) eqn:B; [destruct H as [H|H]; [apply (HERE k); auto; lia|]|]|];
+  1-4: destruct (enabled (k_tr k)) eqn:En; cbn [andb] in H;
+       [destruct (el <=? lim) eqn:B; [destruct H as [H|H]; [apply (HERE k); auto 6; lia|]|]|];
        apply (SKIP el H); change (elapsed [_]) with 0; lia.
   apply (SKIP (el + ns) H). change (elapsed [Advance ns]) with (ns + 0). lia.
 Qed.
